@@ -79,8 +79,17 @@ func ruleSqrtContext(w *World, r *RuleResult) {
 			okW = true
 		}
 	}
-	if okW {
-		r.ok(key, w.pos(f.Pos()), "the working context is WithPrecision(max(c.Precision+k, …))", true)
+	// … and at least the operand's digit count (the scaled operand must be exact at working precision)
+	okN := false
+	for _, c := range w.callsTo(f, "(*Context).WithPrecision") {
+		if w.exprOf(f, c.Common().Args[1]).leaves()["call:(*Decimal).NumDigits"] {
+			okN = true
+		}
+	}
+	if okW && !okN {
+		r.bad(key, w.pos(f.Pos()), "the working precision no longer covers the operand's own digit count: operands longer than Precision are truncated before the iteration (wrong result just past a rounding midpoint)")
+	} else if okW {
+		r.ok(key, w.pos(f.Pos()), "the working context is WithPrecision(max(c.Precision+k, NumDigits(x), …))", true)
 	} else {
 		r.bad(key, w.pos(f.Pos()), "the Newton iteration no longer runs at more digits than the result needs")
 	}
